@@ -243,7 +243,7 @@ impl Property for C19 {
     fn runs(&self, tier: Tier) -> u64 {
         match tier {
             Tier::Quick => 4_000,
-            Tier::Thorough => 1_500_000,
+            Tier::Thorough => 300_000,
         }
     }
     fn required_probes(&self) -> Vec<&'static str> {
@@ -366,7 +366,7 @@ pub fn miri_batch(seed: u64, tier: Tier) -> crate::harness::SecondEngine {
     let t0 = std::time::Instant::now();
     let (nscen, nseeds) = match tier {
         Tier::Quick => (std::env::var("VERIF_MIRI_SCENARIOS").ok().and_then(|s| s.parse().ok()).unwrap_or(8u64), 32u64),
-        Tier::Thorough => (std::env::var("VERIF_MIRI_SCENARIOS").ok().and_then(|s| s.parse().ok()).unwrap_or(160u64), 128u64),
+        Tier::Thorough => (std::env::var("VERIF_MIRI_SCENARIOS").ok().and_then(|s| s.parse().ok()).unwrap_or(56u64), 64u64),
     };
     let mut ok_runs = 0u64;
     let mut overlaps = 0u64;
